@@ -1,6 +1,24 @@
 (* Session restore (pcfg_grammar.py:787-896, priority_queue.py restore_base_item):
    the repaired walk (is_parent_around with `<=`) rebuilds exactly the frontier.
-   The refutation of the walk as found (`<`) is in RestoreRefuted.v (needs F64). *)
+   The refutation of the walk as found (`<`) is in RestoreRefuted.v (needs F64).
+
+   Findings: no defect of the model or of the statements was found; nothing is
+   proved in a weakened `_partial` form.  Main results (all closed under the
+   global context, hypotheses [wf rs] and, for R1 only, [okb m = true]):
+     restore_frontier            (R1)  Permutation (restored_gen false rs m)
+                                         (filter (frontierb rs m) (all_preterminals rs))
+     restored_NoDup / restored_nodup   NoDup (restored_gen strict rs m), both comparisons
+     NoDup_all_preterminals            NoDup (all_preterminals rs)
+     restore_fuel_enough_okpt,
+     restore_fuel_enough_root,
+     restore_fuel_enough         (R2)  more fuel than restore_fuel changes nothing (both comparisons)
+     restore_fuel_never_exhausted      the fuel = 0 branch is not taken (on the mirror [fuel_hit])
+     restored_items              (R3)  iprob = find_prob, In all_preterminals, ple (iprob x) m (both comparisons)
+   Proof idea: [walk_sound]/[walk_complete] characterise the result of the walk
+   from node t with [left = k] as the frontier nodes u with t <= u componentwise
+   and firstn k u = firstn k t; [anc_above] (every vector strictly below a
+   frontier node is below one of its parents, hence has probability > m) shows
+   the cut never hides a frontier node. *)
 From Coq Require Import List Arith Bool Lia Sorting.Permutation.
 From Pcfg Require Import ProbAlg Next NextSpec.
 Import ListNotations.
@@ -110,6 +128,9 @@ Proof.
   f_equal. apply IH. lia.
 Qed.
 
+Lemma Forall2_len {X Y} (R : X -> Y -> Prop) l1 l2 : Forall2 R l1 l2 -> length l1 = length l2.
+Proof. induction 1; simpl; auto. Qed.
+
 Lemma combine_fst_snd {X Y} (l : list (X * Y)) : combine (map fst l) (map snd l) = l.
 Proof. induction l as [|[a b] l IH]; simpl; auto. now rewrite IH. Qed.
 
@@ -135,7 +156,7 @@ Proof.
 Qed.
 
 Lemma vectors_length dims vec : In vec (vectors dims) -> length vec = length dims.
-Proof. intros H. apply in_vectors in H. eapply Forall2_length; eauto. Qed.
+Proof. intros H. apply in_vectors in H. eapply Forall2_len; eauto. Qed.
 
 Lemma NoDup_vectors dims : NoDup (vectors dims).
 Proof.
@@ -233,8 +254,11 @@ Qed.
 
 Lemma le_pt_upd_S t : forall pos, le_pt t (upd t pos S).
 Proof.
-  induction t as [|[v0 i0] t IH]; intros [|pos]; simpl; try constructor; simpl; auto.
-  apply le_pt_refl.
+  induction t as [|[v0 i0] t IH]; intros [|pos]; simpl.
+  - constructor.
+  - constructor.
+  - constructor; [simpl; auto|apply le_pt_refl].
+  - constructor; [simpl; auto|apply IH].
 Qed.
 
 Lemma le_pt_upd_l t u : le_pt t u -> forall pos v i v' i',
@@ -244,7 +268,7 @@ Proof.
   induction 1 as [|[v0 i0] [v1 i1] t u [H1 H2] H IH]; intros pos v i v' i' Ht Hu Hlt.
   - destruct pos; discriminate.
   - destruct pos as [|pos]; simpl in *.
-    + inversion Ht; inversion Hu; subst. constructor; auto. simpl. split; auto.
+    + inversion Ht; inversion Hu; subst. constructor; [simpl; split; auto; lia|auto].
     + constructor; auto. eapply IH; eauto.
 Qed.
 
@@ -255,7 +279,7 @@ Proof.
   induction 1 as [|[v0 i0] [v1 i1] t u [H1 H2] H IH]; intros pos v i v' i' Ht Hu Hlt.
   - destruct pos; discriminate.
   - destruct pos as [|pos]; simpl in *.
-    + inversion Ht; inversion Hu; subst. constructor; auto. simpl. split; auto. lia.
+    + inversion Ht; inversion Hu; subst. constructor; [simpl; split; auto; lia|auto].
     + constructor; auto. eapply IH; eauto.
 Qed.
 
@@ -263,15 +287,15 @@ Lemma okpt_upd_S t : forall pos v i, okpt t -> nth_error t pos = Some (v, i) -> 
   okpt (upd t pos S).
 Proof.
   induction t as [|[v0 i0] t IH]; intros [|pos] v i Hok Hn Hlt; simpl in *; try discriminate.
-  - inversion Hn; subst. inversion Hok as [|? ? [Hw Hd] Hok']; subst. constructor; auto.
-  - inversion Hok; subst. constructor; auto. eapply IH; eauto.
+  - inversion Hn; subst. inversion Hok as [|? ? [Hw Hd] Hok']; subst. constructor; [simpl in *; split; auto|auto].
+  - inversion Hok; subst. constructor; [auto|eapply IH; eauto].
 Qed.
 
 Lemma okpt_upd_pred t : forall pos, okpt t -> okpt (upd t pos pred).
 Proof.
   induction t as [|[v0 i0] t IH]; intros [|pos] Hok; simpl in *; auto.
-  - inversion Hok as [|? ? [Hw Hd] Hok']; subst. constructor; auto. simpl in *. split; auto. lia.
-  - inversion Hok; subst. constructor; auto.
+  - inversion Hok as [|? ? [Hw Hd] Hok']; subst. constructor; [simpl in *; split; auto; lia|auto].
+  - inversion Hok; subst. constructor; [auto|apply IH; auto].
 Qed.
 
 (* first position where two comparable vectors differ *)
@@ -300,7 +324,7 @@ Lemma rem_upd_S t : forall pos v i, nth_error t pos = Some (v, i) -> S i < dim v
 Proof.
   induction t as [|[v0 i0] t IH]; intros [|pos] v i Hn Hlt; simpl in *; try discriminate.
   - inversion Hn; subst. lia.
-  - specialize (IH _ _ _ Hn Hlt). unfold rem in IH. lia.
+  - specialize (IH _ _ _ Hn Hlt). unfold rem in *. simpl. lia.
 Qed.
 
 Lemma rem_lt_fuel (it : item) : rem (ipt it) < restore_fuel rs it.
@@ -336,4 +360,477 @@ Proof.
   intros Hok Hf. pose proof (rem_lt_fuel it). apply fuel_irrel; auto; lia.
 Qed.
 
+(* "fuel = 0 is never reached", stated on a copy of the walk that only records
+   whether the fuel-exhausted branch is taken (same recursion as restore_gen). *)
+Fixpoint fuel_hit (fuel : nat) (it : item) (m : P) (left : nat) : bool :=
+  match fuel with
+  | O => true
+  | S f =>
+    if ple (iprob it) m then false
+    else existsb (fun pos =>
+      match nth_error (ipt it) pos with
+      | Some (v, i) =>
+          if Nat.eqb (dim v) (i + 1) then false else
+          fuel_hit f (mk rs (itag it) (upd (ipt it) pos S) (ibase it)) m pos
+      | None => false
+      end) (seq left (length (ipt it) - left))
+  end.
+
+Lemma fuel_never_hit m fuel : forall (it : item) k,
+  okpt (ipt it) -> rem (ipt it) < fuel -> fuel_hit fuel it m k = false.
+Proof.
+  induction fuel as [|f IH]; intros it k Hok H; [lia|].
+  cbn [fuel_hit]. destruct (ple (iprob it) m); [reflexivity|].
+  destruct (existsb _ _) eqn:E; auto. exfalso.
+  apply existsb_exists in E. destruct E as (pos & _ & E).
+  destruct (nth_error (ipt it) pos) as [[v i]|] eqn:En; [|discriminate].
+  destruct (Nat.eqb (dim v) (i + 1)) eqn:Ed; [discriminate|].
+  apply Nat.eqb_neq in Ed.
+  destruct (okpt_nth _ _ _ _ Hok En) as [_ Hd].
+  assert (Hlt : S i < dim v) by lia.
+  pose proof (rem_upd_S _ _ _ _ En Hlt).
+  rewrite IH in E; [discriminate| |]; cbn [ipt mk]; [eapply okpt_upd_S; eauto|lia].
+Qed.
+
+(* ---------------- probabilities ---------------- *)
+
+Lemma desc_head a r : desc (a :: r) -> Forall (fun p : P => unitb p = true) (a :: r) ->
+  Forall (fun b => ple b a = true) r.
+Proof.
+  revert a. induction r as [|b r IH]; intros a Hd Hu; [constructor|].
+  destruct Hd as [Hba Hd]. inversion Hu as [|? ? Ha Hu']; subst.
+  inversion Hu' as [|? ? Hb Hu'']; subst.
+  constructor; auto.
+  specialize (IH b Hd Hu'). rewrite Forall_forall in *. intros c Hc.
+  apply (ple_trans A c b a); auto using (unit_ok A).
+Qed.
+
+Lemma desc_nth (d : P) l : desc l -> Forall (fun p : P => unitb p = true) l ->
+  forall i j, i <= j -> j < length l -> ple (nth j l d) (nth i l d) = true.
+Proof.
+  induction l as [|a r IH]; intros Hd Hu i j Hij Hj; simpl in Hj; [lia|].
+  pose proof (desc_head a r Hd Hu) as Hh.
+  inversion Hu as [|? ? Ha Hu']; subst. destruct Hd as [_ Hd].
+  destruct j as [|j]; destruct i as [|i]; try lia; simpl.
+  - apply (ple_refl A). apply (unit_ok A); auto.
+  - rewrite Forall_forall in Hh. apply Hh. apply nth_In. lia.
+  - apply IH; auto; lia.
+Qed.
+
+Section Base.
+Variable base : P.
+Hypothesis base_ok : okb base = true.
+
+Local Notation F := (fun (a : P) (vi : var * nat) => pmul a (gp rs base vi)).
+
+Lemma gp_unit v i : wf_groups (groups rs v) -> i < dim v -> unitb (gp rs base (v, i)) = true.
+Proof.
+  intros (_ & Hu & _) Hi. unfold gp; simpl. rewrite Forall_forall in Hu. apply Hu. apply nth_In; auto.
+Qed.
+
+Lemma gp_mono v i i' : wf_groups (groups rs v) -> i <= i' -> i' < dim v ->
+  ple (gp rs base (v, i')) (gp rs base (v, i)) = true.
+Proof.
+  intros (_ & Hu & Hd) Hi Hi'. unfold gp; simpl. apply desc_nth; auto.
+Qed.
+
+Lemma fold_ok t : okpt t -> forall a, okb a = true -> okb (fold_left F t a) = true.
+Proof.
+  induction 1 as [|[v i] t [Hw Hd] H IH]; intros a Ha; simpl; auto.
+  apply IH. apply (pmul_ok A); auto. apply gp_unit; auto.
+Qed.
+
+Lemma pr_ok t : okpt t -> okb (find_prob rs t base) = true.
+Proof. intros H. unfold find_prob. apply fold_ok; auto. Qed.
+
+Lemma fold_mono t u : le_pt t u -> okpt u -> forall a a', okb a = true -> okb a' = true ->
+  ple a' a = true -> ple (fold_left F u a') (fold_left F t a) = true.
+Proof.
+  induction 1 as [|[v i] [v' i'] t u [Hv Hi] H IH]; intros Hok a a' Ha Ha' Hle; simpl; auto.
+  simpl in Hv, Hi. subst v'.
+  inversion Hok as [|? ? [Hw Hd] Hok']; subst. simpl in Hw, Hd.
+  assert (U1 : unitb (gp rs base (v, i)) = true) by (apply gp_unit; auto; lia).
+  assert (U2 : unitb (gp rs base (v, i')) = true) by (apply gp_unit; auto).
+  apply IH; auto.
+  - apply (pmul_ok A); auto.
+  - apply (pmul_ok A); auto.
+  - apply (pmul_mono A); auto. apply gp_mono; auto.
+Qed.
+
+(* Fact 1, general form: a componentwise larger index vector is not more probable *)
+Lemma pr_mono t u : le_pt t u -> okpt u ->
+  ple (find_prob rs u base) (find_prob rs t base) = true.
+Proof.
+  intros H Hok. unfold find_prob. apply fold_mono; auto. apply (ple_refl A); auto.
+Qed.
+
+End Base.
+
+(* ---------------- parents / is_parent_around ---------------- *)
+
+Lemma parents_around (it : item) m :
+  existsb (below m) (parents rs it) = parent_around_gen false rs it m.
+Proof.
+  unfold parents, parent_around_gen. rewrite existsb_flat_map.
+  apply existsb_ext_in. intros pos _.
+  destruct (nth_error (ipt it) pos) as [[v [|i]]|]; simpl; auto.
+  rewrite orb_false_r. reflexivity.
+Qed.
+
+Lemma frontierb_alt (it : item) m :
+  frontierb rs m it = ple (iprob it) m && negb (parent_around_gen false rs it m).
+Proof. unfold frontierb. rewrite parents_around. reflexivity. Qed.
+
+(* ---------------- the walk from one node ---------------- *)
+Section Walk.
+Variable tag : nat.
+Variable base : P.
+Hypothesis base_ok : okb base = true.
+Variable m : P.
+Hypothesis m_ok : okb m = true.
+
+Local Notation node t := (mk rs tag t base).
+Local Notation pr t := (find_prob rs t base).
+
+Definition childw (strict : bool) (f : nat) (t : pt) (pos : nat) : list item :=
+  match nth_error t pos with
+  | Some (v, i) =>
+      if Nat.eqb (dim v) (i + 1) then [] else
+      restore_gen strict f rs (node (upd t pos S)) m pos
+  | None => []
+  end.
+
+Lemma restore_gen_S strict f t k :
+  restore_gen strict (S f) rs (node t) m k =
+  if ple (pr t) m then (if parent_around_gen strict rs (node t) m then [] else [node t])
+  else flat_map (childw strict f t) (seq k (length t - k)).
+Proof. reflexivity. Qed.
+
+(* a node of the frontier lies strictly below (in probability) every other
+   vector that is componentwise below it *)
+Lemma anc_above a u : okpt u ->
+  parent_around_gen false rs (node u) m = false ->
+  le_pt a u -> a <> u -> ple (pr a) m = false.
+Proof.
+  intros Hok Hpa Hle Hne.
+  destruct (first_diff a u Hle Hne) as (pos & v & i & i' & _ & Ha & Hu & Hlt).
+  destruct i' as [|i'']; [lia|].
+  unfold parent_around_gen in Hpa. cbn [ipt ibase mk] in Hpa.
+  assert (Hpos : In pos (seq 0 (length u))).
+  { apply in_seq. split; [lia|]. simpl. apply nth_error_Some. congruence. }
+  pose proof (existsb_false_In _ _ _ Hpa Hpos) as Hp. cbv beta in Hp. rewrite Hu in Hp.
+  destruct (ple (pr a) m) eqn:E; auto.
+  rewrite <- Hp. symmetry.
+  assert (Hokp : okpt (upd u pos pred)) by (apply okpt_upd_pred; auto).
+  assert (Hlep : le_pt a (upd u pos pred)) by (eapply le_pt_upd_r; eauto).
+  apply (ple_trans A _ (pr a) _); auto.
+  - apply pr_ok; auto.
+  - apply pr_ok; auto. eapply le_pt_okpt; eauto.
+  - apply pr_mono; auto.
+Qed.
+
+Lemma walk_sound strict fuel : forall t k x, okpt t ->
+  In x (restore_gen strict fuel rs (node t) m k) ->
+  exists u, x = node u /\ le_pt t u /\ firstn k u = firstn k t /\ okpt u /\
+            ple (pr u) m = true /\ parent_around_gen strict rs x m = false.
+Proof.
+  induction fuel as [|f IH]; intros t k x Ht Hx.
+  - destruct Hx.
+  - rewrite restore_gen_S in Hx.
+    destruct (ple (pr t) m) eqn:Ecut.
+    + destruct (parent_around_gen strict rs (node t) m) eqn:Epa; [destruct Hx|].
+      destruct Hx as [<-|[]]. exists t. repeat split; auto using le_pt_refl.
+    + apply in_flat_map in Hx. destruct Hx as (pos & Hpos & Hx).
+      apply in_seq in Hpos. unfold childw in Hx.
+      destruct (nth_error t pos) as [[v i]|] eqn:En; [|destruct Hx].
+      destruct (Nat.eqb (dim v) (i + 1)) eqn:Ed; [destruct Hx|].
+      apply Nat.eqb_neq in Ed.
+      destruct (okpt_nth _ _ _ _ Ht En) as [_ Hd].
+      assert (Hi : S i < dim v) by lia.
+      apply IH in Hx; [|eapply okpt_upd_S; eauto].
+      destruct Hx as (u & -> & Hle & Hfn & Hok & Hp & Hpa).
+      exists u. repeat split; auto.
+      * eapply le_pt_trans; [apply le_pt_upd_S|exact Hle].
+      * rewrite firstn_upd in Hfn by lia.
+        replace k with (min k pos) by lia. rewrite <- !firstn_firstn. rewrite Hfn. reflexivity.
+Qed.
+
+Lemma childw_sound strict f t pos x : okpt t -> In x (childw strict f t pos) ->
+  exists v i u, nth_error t pos = Some (v, i) /\ S i < dim v /\
+    x = node u /\ le_pt (upd t pos S) u /\ firstn pos u = firstn pos t /\ okpt u.
+Proof.
+  intros Ht Hx. unfold childw in Hx.
+  destruct (nth_error t pos) as [[v i]|] eqn:En; [|destruct Hx].
+  destruct (Nat.eqb (dim v) (i + 1)) eqn:Ed; [destruct Hx|].
+  apply Nat.eqb_neq in Ed.
+  destruct (okpt_nth _ _ _ _ Ht En) as [_ Hd].
+  assert (Hi : S i < dim v) by lia.
+  apply walk_sound in Hx; [|eapply okpt_upd_S; eauto].
+  destruct Hx as (u & -> & Hle & Hfn & Hok & _).
+  rewrite firstn_upd in Hfn by lia.
+  exists v, i, u. repeat split; auto.
+Qed.
+
+Lemma walk_nodup strict fuel : forall t k, okpt t ->
+  NoDup (restore_gen strict fuel rs (node t) m k).
+Proof.
+  induction fuel as [|f IH]; intros t k Ht; [constructor|].
+  rewrite restore_gen_S.
+  destruct (ple (pr t) m).
+  { destruct (parent_around_gen strict rs (node t) m); repeat constructor. intros []. }
+  apply NoDup_flat_map.
+  - apply seq_NoDup.
+  - intros pos _. unfold childw.
+    destruct (nth_error t pos) as [[v i]|] eqn:En; [|constructor].
+    destruct (Nat.eqb (dim v) (i + 1)) eqn:Ed; [constructor|].
+    apply Nat.eqb_neq in Ed. destruct (okpt_nth _ _ _ _ Ht En) as [_ Hd].
+    apply IH. eapply okpt_upd_S; eauto. lia.
+  - assert (D : forall a b y, a < b -> In y (childw strict f t a) -> In y (childw strict f t b) -> False).
+    { intros a b y Hab Ha Hb.
+      apply childw_sound in Ha; auto. apply childw_sound in Hb; auto.
+      destruct Ha as (v & i & u & En & Hi & -> & Hle & Hfn & Hok).
+      destruct Hb as (v' & i' & u' & En' & Hi' & E & Hle' & Hfn' & Hok').
+      assert (u' = u) by (apply (f_equal (@ipt A)) in E; simpl in E; auto). subst u'.
+      destruct (le_pt_nth _ _ Hle a v (S i)) as (j & Hj & Hlt).
+      { apply nth_error_upd_same; auto. }
+      assert (Hj' : nth_error u a = nth_error t a).
+      { rewrite <- (nth_error_firstn_lt b u a Hab), Hfn'. apply nth_error_firstn_lt; auto. }
+      rewrite Hj, En in Hj'. inversion Hj'. lia. }
+    intros a b y _ _ Ha Hb.
+    destruct (lt_eq_lt_dec a b) as [[Hlt|He]|Hlt]; auto; exfalso; eauto.
+Qed.
+
+Lemma walk_complete fuel : forall t k u, okpt t -> rem t < fuel ->
+  le_pt t u -> firstn k u = firstn k t -> okpt u ->
+  ple (pr u) m = true -> parent_around_gen false rs (node u) m = false ->
+  In (node u) (restore_gen false fuel rs (node t) m k).
+Proof.
+  induction fuel as [|f IH]; intros t k u Ht Hf Hle Hfn Hu Hp Hpa; [lia|].
+  rewrite restore_gen_S.
+  destruct (pt_eq_dec t u) as [->|Hne].
+  - rewrite Hp, Hpa. left; reflexivity.
+  - rewrite (anc_above t u Hu Hpa Hle Hne).
+    destruct (first_diff t u Hle Hne) as (pos & v & i & i' & Hfp & Hnt & Hnu & Hlt).
+    assert (Hk : k <= pos).
+    { destruct (le_lt_dec k pos) as [|Hc]; auto. exfalso.
+      assert (E : nth_error u pos = nth_error t pos).
+      { rewrite <- (nth_error_firstn_lt k u pos Hc), Hfn. apply nth_error_firstn_lt; auto. }
+      rewrite Hnt, Hnu in E. inversion E. lia. }
+    assert (Hlen : pos < length t) by (apply nth_error_Some; congruence).
+    destruct (okpt_nth _ _ _ _ Hu Hnu) as [_ Hd'].
+    apply in_flat_map. exists pos. split; [apply in_seq; lia|].
+    unfold childw. rewrite Hnt.
+    replace (Nat.eqb (dim v) (i + 1)) with false by (symmetry; apply Nat.eqb_neq; lia).
+    apply IH; auto.
+    + eapply okpt_upd_S; eauto. lia.
+    + assert (rem (upd t pos S) < rem t) by (eapply rem_upd_S; eauto; lia). lia.
+    + eapply le_pt_upd_l; eauto.
+    + rewrite firstn_upd by lia. auto.
+Qed.
+
+End Walk.
+
+(* ---------------- all base structures ---------------- *)
+Section Top.
+Hypothesis Hwf : wf rs.
+
+Local Notation kbs := (combine (seq 0 (length (bases rs))) (bases rs)).
+
+Definition root (kb : nat * bstruct A) : pt := map (fun v => (v, 0)) (brepl (snd kb)).
+
+Lemma init_items_eq :
+  init_items rs = map (fun kb => mk rs (fst kb) (root kb) (bprob (snd kb))) kbs.
+Proof. reflexivity. Qed.
+
+Lemma kbs_wf kb : In kb kbs ->
+  okb (bprob (snd kb)) = true /\ Forall (fun v => wf_groups (groups rs v)) (brepl (snd kb)).
+Proof.
+  intros H. destruct kb as [k b]. apply in_combine_r in H.
+  unfold wf in Hwf. rewrite Forall_forall in Hwf. apply (Hwf b); auto.
+Qed.
+
+Lemma map_fst_kbs : map fst kbs = seq 0 (length (bases rs)).
+Proof. apply map_fst_combine. apply seq_length. Qed.
+
+Lemma NoDup_kbs : NoDup kbs.
+Proof. apply (NoDup_map_inv fst). rewrite map_fst_kbs. apply seq_NoDup. Qed.
+
+Lemma kbs_fst_inj a b : In a kbs -> In b kbs -> fst a = fst b -> a = b.
+Proof.
+  apply NoDup_map_inj_in. rewrite map_fst_kbs. apply seq_NoDup.
+Qed.
+
+Lemma map_fst_root (vs : list var) : map fst (map (fun v => (v, 0)) vs) = vs.
+Proof. induction vs; simpl; congruence. Qed.
+
+Lemma okpt_root vs : Forall (fun v => wf_groups (groups rs v)) vs ->
+  okpt (map (fun v => (v, 0)) vs).
+Proof.
+  induction 1 as [|v vs Hv H IH]; simpl; constructor; auto.
+  simpl. split; auto. destruct Hv as [Hne _]. destruct (groups rs v); [congruence|simpl; lia].
+Qed.
+
+Lemma grid_of_vec vs : Forall (fun v => wf_groups (groups rs v)) vs -> forall vec,
+  Forall2 (fun i d => i < d) vec (map (fun v => dim v) vs) ->
+  okpt (combine vs vec) /\ le_pt (map (fun v => (v, 0)) vs) (combine vs vec).
+Proof.
+  induction 1 as [|v vs Hv H IH]; intros vec Hvec; simpl in *; inversion Hvec; subst; simpl.
+  - split; constructor.
+  - destruct (IH _ H4) as [I1 I2]. split; constructor; simpl; auto. lia.
+Qed.
+
+Lemma vec_of_grid u : okpt u ->
+  Forall2 (fun i d => i < d) (map snd u) (map (fun v => dim v) (map fst u)).
+Proof.
+  induction 1 as [|[v i] u [Hw Hd] H IH]; simpl; constructor; auto.
+Qed.
+
+Lemma in_preterminals x :
+  In x (all_preterminals rs) <->
+  exists kb u, In kb kbs /\ x = mk rs (fst kb) u (bprob (snd kb)) /\ le_pt (root kb) u /\ okpt u.
+Proof.
+  unfold all_preterminals. rewrite in_flat_map. split.
+  - intros (kb & Hkb & Hx). unfold preterminals_of in Hx. apply in_map_iff in Hx.
+    destruct Hx as (vec & <- & Hvec). apply in_vectors in Hvec.
+    destruct (kbs_wf kb Hkb) as [_ Hvs].
+    destruct (grid_of_vec _ Hvs _ Hvec) as [H1 H2].
+    exists kb, (combine (brepl (snd kb)) vec). auto.
+  - intros (kb & u & Hkb & -> & Hle & Hok). exists kb. split; auto.
+    unfold preterminals_of. apply in_map_iff. exists (map snd u).
+    apply le_pt_fst in Hle. unfold root in Hle. rewrite map_fst_root in Hle.
+    rewrite Hle. rewrite combine_fst_snd. split; auto.
+    apply in_vectors. apply vec_of_grid; auto.
+Qed.
+
+Lemma preterminal_prob x : In x (all_preterminals rs) ->
+  iprob x = find_prob rs (ipt x) (ibase x).
+Proof. intros H. apply in_preterminals in H. destruct H as (kb & u & _ & -> & _). reflexivity. Qed.
+
+Lemma NoDup_all_preterminals : NoDup (all_preterminals rs).
+Proof.
+  unfold all_preterminals. apply NoDup_flat_map.
+  - apply NoDup_kbs.
+  - intros kb _. unfold preterminals_of. apply NoDup_map_inj_on; [apply NoDup_vectors|].
+    intros a b Ha Hb E. apply vectors_length in Ha. apply vectors_length in Hb.
+    rewrite map_length in Ha, Hb.
+    apply (f_equal (@ipt A)) in E. simpl in E.
+    apply (f_equal (map snd)) in E. rewrite !map_snd_combine in E by lia. exact E.
+  - intros a b y Ha Hb Hya Hyb. apply kbs_fst_inj; auto.
+    unfold preterminals_of in *. apply in_map_iff in Hya. apply in_map_iff in Hyb.
+    destruct Hya as (w & <- & _). destruct Hyb as (w' & E & _).
+    apply (f_equal (@itag A)) in E. simpl in E. auto.
+Qed.
+
+Variable m : P.
+Hypothesis m_ok : okb m = true.
+
+Lemma in_restored strict x : In x (restored_gen strict rs m) ->
+  exists kb u, In kb kbs /\ x = mk rs (fst kb) u (bprob (snd kb)) /\ le_pt (root kb) u /\ okpt u /\
+    ple (iprob x) m = true /\ parent_around_gen strict rs x m = false.
+Proof.
+  unfold restored_gen. rewrite init_items_eq, flat_map_map, in_flat_map.
+  intros (kb & Hkb & Hx). destruct (kbs_wf kb Hkb) as [Hb Hvs].
+  apply walk_sound in Hx; [|apply okpt_root; auto].
+  destruct Hx as (u & -> & Hle & _ & Hok & Hp & Hpa).
+  exists kb, u. repeat split; auto.
+Qed.
+
+Lemma restored_nodup strict : NoDup (restored_gen strict rs m).
+Proof.
+  unfold restored_gen. rewrite init_items_eq, flat_map_map.
+  apply NoDup_flat_map.
+  - apply NoDup_kbs.
+  - intros kb Hkb. destruct (kbs_wf kb Hkb) as [Hb Hvs]. apply walk_nodup. apply okpt_root; auto.
+  - intros a b y Ha Hb Hya Hyb. apply kbs_fst_inj; auto.
+    destruct (kbs_wf a Ha) as [_ Hva]. destruct (kbs_wf b Hb) as [_ Hvb].
+    apply walk_sound in Hya; [|apply okpt_root; auto].
+    apply walk_sound in Hyb; [|apply okpt_root; auto].
+    destruct Hya as (u & -> & _). destruct Hyb as (u' & E & _).
+    apply (f_equal (@itag A)) in E. simpl in E. auto.
+Qed.
+
+Lemma restored_in_iff x :
+  In x (restored_gen false rs m) <-> In x (filter (frontierb rs m) (all_preterminals rs)).
+Proof.
+  rewrite filter_In. split.
+  - intros H. apply in_restored in H.
+    destruct H as (kb & u & Hkb & -> & Hle & Hok & Hp & Hpa). split.
+    + apply in_preterminals. exists kb, u. auto.
+    + rewrite frontierb_alt, Hp, Hpa. reflexivity.
+  - intros [Hin Hf]. apply in_preterminals in Hin.
+    destruct Hin as (kb & u & Hkb & -> & Hle & Hok).
+    rewrite frontierb_alt in Hf. apply andb_true_iff in Hf. destruct Hf as [Hp Hpa].
+    apply negb_true_iff in Hpa. cbn [iprob mk] in Hp.
+    destruct (kbs_wf kb Hkb) as [Hb Hvs].
+    unfold restored_gen. rewrite init_items_eq, flat_map_map, in_flat_map.
+    exists kb. split; auto.
+    apply walk_complete; auto.
+    + apply okpt_root; auto.
+    + apply (rem_lt_fuel (mk rs (fst kb) (root kb) (bprob (snd kb)))).
+Qed.
+
+(* R1 *)
+Theorem restore_frontier :
+  Permutation (restored_gen false rs m) (filter (frontierb rs m) (all_preterminals rs)).
+Proof.
+  apply NoDup_Permutation.
+  - apply restored_nodup.
+  - apply NoDup_filter. apply NoDup_all_preterminals.
+  - apply restored_in_iff.
+Qed.
+
+Corollary restored_NoDup : NoDup (restored_gen false rs m).
+Proof. apply restored_nodup. Qed.
+
+(* R3 (for both comparisons) *)
+Theorem restored_items strict x : In x (restored_gen strict rs m) ->
+  iprob x = find_prob rs (ipt x) (ibase x) /\ In x (all_preterminals rs) /\
+  ple (iprob x) m = true.
+Proof.
+  intros H. apply in_restored in H.
+  destruct H as (kb & u & Hkb & -> & Hle & Hok & Hp & _).
+  split; [reflexivity|]. split; auto.
+  apply in_preterminals. exists kb, u. auto.
+Qed.
+
+Lemma init_item_okpt it : In it (init_items rs) -> okpt (ipt it).
+Proof.
+  intros Hit. rewrite init_items_eq in Hit. apply in_map_iff in Hit.
+  destruct Hit as (kb & <- & Hkb).
+  destruct (kbs_wf kb Hkb) as [_ Hvs]. apply okpt_root; auto.
+Qed.
+
+(* R2, per root item and for any [left] *)
+Theorem restore_fuel_enough_root strict it fuel left :
+  In it (init_items rs) -> restore_fuel rs it <= fuel ->
+  restore_gen strict fuel rs it m left = restore_gen strict (restore_fuel rs it) rs it m left.
+Proof. intros Hit Hf. apply restore_fuel_enough_okpt; auto. apply init_item_okpt; auto. Qed.
+
+Theorem restore_fuel_never_exhausted it left :
+  In it (init_items rs) -> fuel_hit (restore_fuel rs it) it m left = false.
+Proof. intros Hit. apply fuel_never_hit; [apply init_item_okpt; auto|apply rem_lt_fuel]. Qed.
+
+(* R2 at the roots: any fuel >= restore_fuel gives the same queue *)
+Theorem restore_fuel_enough strict (fuel : item -> nat) :
+  (forall it, restore_fuel rs it <= fuel it) ->
+  flat_map (fun it => restore_gen strict (fuel it) rs it m 0) (init_items rs) =
+  restored_gen strict rs m.
+Proof.
+  intros Hf. unfold restored_gen. apply flat_map_ext_in. intros it Hit.
+  apply restore_fuel_enough_root; auto.
+Qed.
+
+End Top.
+
 End Restore.
+
+Check @restore_frontier.
+Check @restored_NoDup.
+Check @restored_items.
+Check @restore_fuel_enough.
+Check @restore_fuel_enough_root.
+Check @restore_fuel_enough_okpt.
+Check @restore_fuel_never_exhausted.
+Print Assumptions restore_frontier.
+Print Assumptions restored_items.
+Print Assumptions restore_fuel_enough.
